@@ -101,6 +101,10 @@ type dec struct {
 	b  bool
 	v  uint64
 	fp uint32 // structural fingerprint of the condition decided here (replay determinism self-check)
+	// implied: the other side was infeasible, i.e. the path condition already implies the side taken. Such a
+	// condition is remembered in pcSet (so that it is not decided again) but not appended to pc: it adds nothing
+	// logically and would only couple otherwise independent variables in later constraint slices.
+	implied bool
 }
 
 type workItem struct {
@@ -363,10 +367,14 @@ func (w *World) branchV(c *Term, val uint64) bool {
 		}
 		r.cursor++
 		r.taken = append(r.taken, d)
-		if d.b {
-			w.addPC(c)
+		dc := c
+		if !d.b {
+			dc = nc
+		}
+		if d.implied {
+			w.notePC(dc)
 		} else {
-			w.addPC(nc)
+			w.addPC(dc)
 		}
 		return d.b
 	}
@@ -382,11 +390,14 @@ func (w *World) branchV(c *Term, val uint64) bool {
 	w.feasQuery = true
 	res, model := w.query(other, true)
 	w.feasQuery = false
+	implied := false
 	switch res {
+	case ResUnsat:
+		implied = true
 	case ResSat:
 		tr := make([]dec, len(r.taken)+1)
 		copy(tr, r.taken)
-		tr[len(r.taken)] = dec{!side, val, w.fingerprint(c)}
+		tr[len(r.taken)] = dec{b: !side, v: val, fp: w.fingerprint(c)}
 		wi := workItem{trail: tr, witness: model}
 		if gDebug {
 			wi.dbgLog = append([]string(nil), r.dbgLog...)
@@ -395,14 +406,28 @@ func (w *World) branchV(c *Term, val uint64) bool {
 	case ResUnknown:
 		r.inconclusive = append(r.inconclusive, "branch feasibility unknown: "+TermString(other, 4))
 	}
-	r.taken = append(r.taken, dec{side, val, w.fingerprint(c)})
+	r.taken = append(r.taken, dec{b: side, v: val, fp: w.fingerprint(c), implied: implied})
 	r.cursor++
-	if side {
-		w.addPC(c)
+	sc := c
+	if !side {
+		sc = nc
+	}
+	if implied {
+		w.notePC(sc)
 	} else {
-		w.addPC(nc)
+		w.addPC(sc)
 	}
 	return side
+}
+
+// notePC records that the path condition implies t without adding t to the conjunction.
+func (w *World) notePC(t *Term) {
+	r := w.run
+	r.pcSet[t] = true
+	if t.Op == OpBAnd {
+		r.pcSet[t.A] = true
+		r.pcSet[t.B] = true
+	}
 }
 
 // concretize forks over the feasible values of t (at most limit, else BOUND-HIT).
